@@ -29,6 +29,20 @@ type Canonical struct{}
 
 func (Canonical) Pick(string, int) int { return 0 }
 
+// PinnedExcept is the canonical chooser with a few choices left free: every
+// label not listed picks 0 (the canonical spelling), the listed ones are drawn.
+type PinnedExcept struct {
+	T    *rapid.T
+	Free map[string]bool
+}
+
+func (c PinnedExcept) Pick(label string, n int) int {
+	if n <= 1 || !c.Free[label] {
+		return 0
+	}
+	return rapid.IntRange(0, n-1).Draw(c.T, label)
+}
+
 // Size bounds the generated documents.
 type Size struct {
 	Depth     int // container nesting
@@ -404,7 +418,7 @@ func (g *Gen) blockInlines(c ictx) []*Inline {
 	return trimEdges(g.inlines(g.Sz.InlDepth, c))
 }
 
-var codeWords = []string{"x", "foo", "- a", "> q", "<b>", "&amp;", "*x*", "    deep", "```", "~~~", "````", "# h", "1. n", "\\", "`", "[a](b)", "  two", "\ttab", "---", "===", "a  ", "<div>", "```go", "~~~~ x"}
+var codeWords = []string{"```  ", "~~~ ", " ```", "  ~~~~  ", "``` \t", "x", "foo", "- a", "> q", "<b>", "&amp;", "*x*", "    deep", "```", "~~~", "````", "# h", "1. n", "\\", "`", "[a](b)", "  two", "\ttab", "---", "===", "a  ", "<div>", "```go", "~~~~ x"}
 
 func (g *Gen) codeLines(allowBlankEdges bool) []string {
 	n := 1 + g.pick("ncode", 4)
